@@ -44,6 +44,12 @@ def histories(ctx, maxhist, quick, consts=None):
     ctx.add_tlc(res)
     if res.errors or not res.completed or not res.recs:
         raise tlc.MachineryError("MC_ObjectHist failed: %s" % (res.errors[:2] or res.stdout[-600:]))
+    # TLC enumerates every behaviour; replaying each costs about 50 ms, so beyond a budget a seeded sample is replayed
+    budget = 4000 if ctx.quick else 14000
+    ctx.extra["behaviours_enumerated_by_TLC"] = ctx.extra.get("behaviours_enumerated_by_TLC", 0) + len(res.recs)
+    if len(res.recs) > budget:
+        res.recs = ctx.rng.sample(res.recs, budget)
+        ctx.extra["behaviours_replayed_is_a_sample"] = True
     return res
 
 
